@@ -80,7 +80,45 @@ def sec_arms(src):
     return rows("matchArms", "what the match binds and scrutinises, then (pattern, value | block) per arm of the match in `load_impl`, in source order", rs)
 
 
-def arm_step(s):
+def arm_step(s, alias):
+    m = re.fullmatch(r"let (" + ID + r") = (" + ID + r")\.unwrap_or_default\(\);", s)
+    if m:   # a name for the default-filled kerning: resolved where it is used, no row of its own
+        alias[m.group(1)] = m.group(2) + ".unwrap_or_default"
+        return []
+    m = re.fullmatch(r"match validate_groups\(&(" + ID + r")\) (\{.*\})", s)
+    if m:
+        blk, _ = block_at(m.group(2), 0)
+        arms = [a.strip() for a in split_top(blk, ",") if a.strip()]
+        out, value = [], None
+        for a in arms:
+            mo = re.fullmatch(r"Ok\(\(\)\) => (\(Some\(" + ID + r"\), Some\(" + ID + r"\)\))", a)
+            me = re.fullmatch(r"Err\((" + ID + r")\) => return Err\(FontLoadError::(\w+)\(\1\)\)", a)
+            mg = re.fullmatch(r"Err\(_\) if (.+?) => (.+)", a)
+            if mo and value is None:
+                value = mo.group(1)
+            elif me:
+                out.append(("validate_groups(%s)" % m.group(1), "%s returned" % me.group(2)))
+            elif mg:
+                out.append(("validate_groups(%s)" % m.group(1), "error dropped when %s; value %s" % (mg.group(1), mg.group(2).replace(" ", ""))))
+            else:
+                raise Anchor("load_impl, legacy arm: arm of the match on the validator: " + a[:60])
+        if value is None:
+            raise Anchor("load_impl, legacy arm: no Ok arm")
+        return out + arm_step(value, alias)
+    return [arm_step1(s, alias)]
+
+
+def split_top(t, ch):
+    out, last = [], 0
+    for j, c, d in walk(t, 0):
+        if d == 0 and c == ch:
+            out.append(t[last:j])
+            last = j + 1
+    out.append(t[last:])
+    return out
+
+
+def arm_step1(s, alias):
     m = re.fullmatch(r"let (" + ID + r") ?: ?NameList = (.+);", s)
     if m:
         rhs = m.group(2)
@@ -94,6 +132,8 @@ def arm_step(s):
                      + r")((?:\.unwrap_or_default\(\))?), &(" + ID + r"),? ?\);", s)
     if m:
         a, b, g, k, d, gs = m.groups()
+        if k in alias and not d:
+            k, d = alias[k].split(".")[0], True
         return ("let %s,%s" % (a, b), "upconvert_kerning(%s, %s%s, %s)" % (g, k, ".unwrap_or_default" if d else "", gs))
     m = re.fullmatch(r"validate_groups\(&(" + ID + r")\)\.map_err\(FontLoadError::(\w+)\)(\??);", s)
     if m:
@@ -113,7 +153,9 @@ def sec_steps(src):
     if len(blocks) != 1:
         raise Anchor("load_impl: exactly one arm with a block expected")
     pat, body = blocks[0]
-    rs = [("arm", pat.replace(" ", ""))] + [arm_step(s) for s in split_stmts(body)]
+    alias, rs = {}, [("arm", pat.replace(" ", ""))]
+    for s in split_stmts(body):
+        rs += arm_step(s, alias)
     return rows("armSteps", "the statements of the arm that converts (formats 1 and 2, groups.plist present), in source order", rs)
 
 
